@@ -3,8 +3,8 @@
    and the lend rate never exceeds the borrow rate.
    Property theorems only; each is closed by a lemma proved in Proofs/.  Dec values are their
    10^18-scaled integers ("ulp" = 10^-18); floats are integers in units of 2^-1074.          *)
-From Comdex Require Import Lib.Base Lib.DecArith Lib.F64 Model.Accrual Model.Rates
-  Proofs.AccrualProofs Proofs.RatesProofs.
+From Comdex Require Import Lib.Base Lib.DecArith Lib.F64 Model.Accrual Model.AccrualFast Model.Rates
+  Proofs.AccrualProofs Proofs.AccrualFastProofs Proofs.RatesProofs.
 
 (* ============ (i) index accrual: CalculateLendReward / CalculateBorrowInterest ============ *)
 (* how the three lend functions reach the common step: negative elapsed time is an error, a
@@ -276,6 +276,14 @@ Theorem c18_cmp_spec : forall pow now btime amt lsr r,
   0 <= now - btime /\ r = cmp_new pow amt lsr (now - btime).
 Proof. exact calc_spec. Qed.
 Print Assumptions c18_cmp_spec.
+
+(* the function the correspondence run executes (float steps by shifts, Lib/F64Fast.v) IS the
+   model: equal on every argument, for every pow *)
+Theorem c18_cmp_fast_model : forall pow now btime amt lsr secs,
+  calculation_of_rewards_fast pow now btime amt lsr = calculation_of_rewards pow now btime amt lsr /\
+  cmp_xf lsr = cmp_x lsr /\ cmp_yf secs = cmp_y secs.
+Proof. intros. split; [apply calculation_of_rewards_fast_eq|]. split; [apply cmp_xf_eq|apply cmp_yf_eq]. Qed.
+Print Assumptions c18_cmp_fast_model.
 
 Theorem c18_cmp_nonneg : forall pow, PowH1 pow -> forall amt lsr secs,
   0 <= amt -> 0 <= lsr -> 0 <= secs -> 0 <= cmp_new pow amt lsr secs.
